@@ -899,7 +899,11 @@ class sptensor:
         3.0
         """
         # If all entries are zero innerproduct must be 0
-        if self.nnz == 0:
+        if self.nnz == 0 and isinstance(
+            other, (ttb.sptensor, ttb.tensor, ttb.ktensor, ttb.ttensor)
+        ):
+            if self.shape != other.shape:
+                assert False, "Tensors must be same shape for innerproduct"
             return 0
 
         if isinstance(other, ttb.sptensor):
